@@ -7,11 +7,11 @@ namespace Hls
 theorem siPfx_false (pfx x : Str) (h : ∀ r, startsWith (pfx ++ r) siPfx = false) : startsWith (pfx ++ x) siPfx = false := h x
 
 theorem lineRT_flag (l : Line) (pfx : Str) (hr : l.render = pfx) (hp : PfxOK pfx) (hnl : '\n' ∉ pfx)
-    (hsi : startsWith pfx siPfx = false) (hc : classify1 pfx = .ok l)
+    (hsi : startsWith pfx siPfx = false) (hc : classify1 pfx = .ok l) (hnm : l.norm = l)
     (hnv : ∀ uri fr au su cc d, l ≠ .variant (.extXStreamInf uri fr au su cc d)) : LineRT l := by
   have core : '\n' ∉ l.render ∧ trim l.render = l.render ∧ l.render ≠ [] ∧ startsWith l.render siPfx = false ∧
-      classify1 l.render = .ok l := by
-    rw [hr]
+      classify1 l.render = .ok l.norm := by
+    rw [hr, hnm]
     exact ⟨hnl, trim_id pfx hp.1 hp.2.2, hp.2.1, hsi, hc⟩
   cases l with
   | variant v =>
@@ -26,6 +26,7 @@ theorem lineRT_endList : LineRT .endList := by
   · unfold pfxEndList; simp
   · unfold pfxEndList siPfx Generated.streamInfPrefix; simp [startsWith, List.isPrefixOf]
   · rw [classify1_ext _ (by unfold pfxEndList; simp [startsWith, List.isPrefixOf]), dispatch_endList]
+  · rfl
   · intros; simp
 
 theorem lineRT_iFramesOnly : LineRT .iFramesOnly := by
@@ -34,6 +35,7 @@ theorem lineRT_iFramesOnly : LineRT .iFramesOnly := by
   · unfold pfxIFramesOnly; simp
   · unfold pfxIFramesOnly siPfx Generated.streamInfPrefix; simp [startsWith, List.isPrefixOf]
   · rw [classify1_ext _ (by unfold pfxIFramesOnly; simp [startsWith, List.isPrefixOf]), dispatch_iFramesOnly]
+  · rfl
   · intros; simp
 
 theorem lineRT_independentSegments : LineRT .independentSegments := by
@@ -42,6 +44,7 @@ theorem lineRT_independentSegments : LineRT .independentSegments := by
   · unfold pfxIndependentSegments; simp
   · unfold pfxIndependentSegments siPfx Generated.streamInfPrefix; simp [startsWith, List.isPrefixOf]
   · rw [classify1_ext _ (by unfold pfxIndependentSegments; simp [startsWith, List.isPrefixOf]), dispatch_independentSegments]
+  · rfl
   · intros; simp
 
 theorem lineRT_discontinuity : LineRT .discontinuity := by
@@ -50,16 +53,17 @@ theorem lineRT_discontinuity : LineRT .discontinuity := by
   · unfold pfxDiscontinuity; simp
   · unfold pfxDiscontinuity siPfx Generated.streamInfPrefix; simp [startsWith, List.isPrefixOf]
   · rw [classify1_ext _ (by unfold pfxDiscontinuity; simp [startsWith, List.isPrefixOf]), dispatch_discontinuity]
+  · rfl
   · intros; simp
 
 /-- a tag line `pfx ++ x` with a plain (unquoted, blank-free) value -/
 theorem lineRT_value (l : Line) (pfx x : Str) (hr : l.render = pfx ++ x) (hp : PfxOK pfx) (hnl : '\n' ∉ pfx) (hx : plainVal x = true)
-    (hsi : startsWith (pfx ++ x) siPfx = false) (hc : trim (pfx ++ x) = pfx ++ x → classify1 (pfx ++ x) = .ok l)
+    (hsi : startsWith (pfx ++ x) siPfx = false) (hc : trim (pfx ++ x) = pfx ++ x → classify1 (pfx ++ x) = .ok l) (hnm : l.norm = l)
     (hnv : ∀ uri fr au su cc d, l ≠ .variant (.extXStreamInf uri fr au su cc d)) : LineRT l := by
   obtain ⟨a, b, c⟩ := lineRT_parts pfx x hp (endsOk_plain x hx) hnl (nl_notin_plain x hx)
   have core : '\n' ∉ l.render ∧ trim l.render = l.render ∧ l.render ≠ [] ∧ startsWith l.render siPfx = false ∧
-      classify1 l.render = .ok l := by
-    rw [hr]; exact ⟨a, b, c, hsi, hc b⟩
+      classify1 l.render = .ok l.norm := by
+    rw [hr, hnm]; exact ⟨a, b, c, hsi, hc b⟩
   cases l with
   | variant v =>
     cases v with
@@ -76,6 +80,7 @@ theorem lineRT_mediaSequence (n : Nat) (h : n < 2 ^ 64) : LineRT (.mediaSequence
   · intro ht
     rw [classify1_ext _ (C12.ext_prefix _ _ (by unfold pfxMediaSequence; simp [startsWith, List.isPrefixOf])), dispatch_mediaSequence]
     simp only [ExtXMediaSequence.parse, C12.stripTag_line _ _ ht, Res.bind_ok, parseNat_showNat 64 n h, Res.map]
+  · rfl
   · intros; simp
 
 theorem lineRT_discontinuitySequence (n : Nat) (h : n < 2 ^ 64) : LineRT (.discontinuitySequence n) := by
@@ -88,6 +93,7 @@ theorem lineRT_discontinuitySequence (n : Nat) (h : n < 2 ^ 64) : LineRT (.disco
     rw [classify1_ext _ (C12.ext_prefix _ _ (by unfold pfxDiscontinuitySequence; simp [startsWith, List.isPrefixOf])),
       dispatch_discontinuitySequence]
     simp only [ExtXDiscontinuitySequence.parse, C12.stripTag_line _ _ ht, Res.bind_ok, parseNat_showNat 64 n h, Res.map]
+  · rfl
   · intros; simp
 
 /-- target durations are whole seconds that fit in 64 bits (what the tag can carry) -/
@@ -104,6 +110,7 @@ theorem lineRT_targetDuration (d : Nat) (hw : d % nanosPerSec = 0) (h : d / nano
       have := Nat.div_add_mod d nanosPerSec
       rw [hw] at this; rw [Nat.mul_comm]; omega
     rw [this]
+  · rfl
   · intros; simp
 
 theorem lineRT_byteRange (r : ByteRange) (h : r.WF) : LineRT (.byteRange r) := by
@@ -120,6 +127,7 @@ theorem lineRT_byteRange (r : ByteRange) (h : r.WF) : LineRT (.byteRange r) := b
   · intro ht
     rw [classify1_ext _ (C12.ext_prefix _ _ (by unfold pfxByteRange; simp [startsWith, List.isPrefixOf])), dispatch_byteRange]
     simp only [ExtXByteRange.parse, C12.stripTag_line _ _ ht, Res.bind_ok, byteRange_roundtrip r h, Res.map]
+  · rfl
   · intros; simp
 
 theorem lineRT_playlistType (p : PlaylistType) : LineRT (.playlistType p) := by
@@ -132,6 +140,7 @@ theorem lineRT_playlistType (p : PlaylistType) : LineRT (.playlistType p) := by
     rw [classify1_ext _ (C12.ext_prefix _ _ (by unfold playlistTypePrefix; simp [startsWith, List.isPrefixOf])), dispatch_playlistType]
     simp only [PlaylistType.parse, C12.stripTag_line _ _ ht, Res.bind_ok]
     cases p <;> simp [PlaylistType.name, Res.map]
+  · rfl
   · intros; simp
 
 theorem lineRT_version (v : Nat) (h : v ∈ [1, 2, 3, 4, 5, 6, 7]) : LineRT (.version v) := by
@@ -143,6 +152,7 @@ theorem lineRT_version (v : Nat) (h : v ∈ [1, 2, 3, 4, 5, 6, 7]) : LineRT (.ve
   · intro ht
     rw [classify1_ext _ (C12.ext_prefix _ _ (by unfold pfxVersion; simp [startsWith, List.isPrefixOf])), dispatch_version]
     simp only [ExtXVersion.parse, C12.stripTag_line _ _ ht, Res.bind_ok, C18.protocolVersion_rt v h, Res.map]
+  · rfl
   · intros; simp
 
 /-- the program date-time is kept as text: any text without line break that does not end in a blank -/
@@ -156,5 +166,6 @@ theorem lineRT_programDateTime (t : ExtXProgramDateTime) (h1 : '\n' ∉ t.date_t
   · show classify1 (pfxProgramDateTime ++ t.date_time) = _
     rw [classify1_ext _ (C12.ext_prefix _ _ (by unfold pfxProgramDateTime; simp [startsWith, List.isPrefixOf])), dispatch_programDateTime]
     simp only [ExtXProgramDateTime.parse, C12.stripTag_line _ _ b, Res.bind_ok, Res.map, Res.pure_eq]
+    rfl
 
 end Hls
